@@ -150,6 +150,27 @@ type UpgradeableBeaconState interface {
 	UpgradeMaybe(ctx context.Context, spec *Spec, epc *EpochsContext) error
 }
 
+// BeaconStateUnwrapper is implemented by BeaconState wrappers (e.g. an UpgradeableBeaconState holding the
+// fork-specific state), so that optional per-fork interfaces can be looked up on the state that is wrapped.
+type BeaconStateUnwrapper interface {
+	UnwrapBeaconState() BeaconState
+}
+
+// UnwrapBeaconState returns the innermost wrapped state, or the state itself if it is not a wrapper.
+func UnwrapBeaconState(state BeaconState) BeaconState {
+	for {
+		w, ok := state.(BeaconStateUnwrapper)
+		if !ok {
+			return state
+		}
+		inner := w.UnwrapBeaconState()
+		if inner == nil {
+			return state
+		}
+		state = inner
+	}
+}
+
 type SyncCommitteeBeaconState interface {
 	BeaconState
 	CurrentSyncCommittee() (*SyncCommitteeView, error)
